@@ -541,32 +541,52 @@ func main() {
 		run.Count("perm-pair")
 	}
 
-	// 3. DeriveSha (keys rlp(i), one a byte-prefix of another from i = 128 on)
+	// 3. DeriveSha differential (keys rlp(i): 0x80, 0x01..0x7f, 0x8180.., 0x820100..; from i = 128 on one key is a byte-prefix
+	//    of another). The model driver recomputes the root independently: model insert AND mptRoot of {rlp(i) -> item_i}.
 	r3 := rng.Fork(3)
-	sizes := []int{0, 1, 2, 3, 15, 16, 17, 18, 127, 128, 129, 130, 200, 256, 257}
-	reps := 2
-	if run.Thorough() {
-		reps = 40
-		sizes = append(sizes, 500, 1000)
+	sizeSet := map[int]bool{}
+	for _, n := range []int{0, 1, 2, 3, 15, 16, 17, 18, 55, 56, 57, 126, 127, 128, 129, 130, 131, 200, 254, 255, 256, 257, 258, 300} {
+		sizeSet[n] = true
 	}
-	for rep := 0; rep < reps; rep++ {
-		for _, n := range sizes {
-			items := make(byteList, n)
-			parts := make([]string, n)
-			for i := range items {
-				items[i] = genVal(r3)
-				parts[i] = hx.Hex(items[i])
+	nRand := 12
+	if run.Thorough() {
+		nRand = 150
+		for n := 0; n <= 300; n++ {
+			sizeSet[n] = true
+		}
+		sizeSet[500], sizeSet[1000] = true, true
+	}
+	for i := 0; i < nRand; i++ {
+		sizeSet[r3.Intn(301)] = true
+	}
+	var sizes []int
+	for n := range sizeSet {
+		sizes = append(sizes, n)
+	}
+	sort.Ints(sizes)
+	for _, n := range sizes {
+		items := make(byteList, n)
+		parts := make([]string, n)
+		for i := range items {
+			items[i] = genVal(r3)
+			if r3.Intn(8) == 0 { // receipt / transaction sized items
+				items[i] = r3.Bytes(100 + r3.Intn(200))
 			}
-			in := "D " + strings.Join(parts, ",")
-			if n == 0 {
-				in = "D -"
-			}
-			run.Current(in)
-			out := hx.Safe(func() string { return hx.Hex(types.DeriveSha(items).Bytes()) })
-			run.Case(in, out)
-			run.Count("derivesha")
+			parts[i] = hx.Hex(items[i])
+		}
+		in := "D " + strings.Join(parts, ",")
+		if n == 0 {
+			in = "D -"
+		}
+		run.Current(in)
+		out := hx.Safe(func() string { return hx.Hex(types.DeriveSha(items).Bytes()) })
+		run.Case(in, out)
+		run.Count("derivesha")
+		if n >= 129 {
+			run.Count("derivesha:n>=129")
 		}
 	}
+	run.Notes["derivesha_sizes"] = sizes
 
 	// 4. key encodings: exhaustive short keys over the alphabet + random
 	var kcases [][]byte
@@ -688,6 +708,12 @@ func main() {
 		}
 	}
 
+	// a run that produced (almost) no cases is a broken correspondence, never a pass
+	minCases := 3000
+	if run.NCases < minCases || st.proofs < 100 || run.Hist["derivesha"] < 20 {
+		run.Violate("degenerate-run", "degenerate-run", map[string]int{"cases": run.NCases, "proofs": st.proofs, "derivesha": run.Hist["derivesha"]},
+			"the harness produced too few cases to say anything")
+	}
 	run.Notes["proofs"] = st.proofs
 	run.Notes["proof_alterations_judged"] = st.alterations
 	run.Notes["empty_root_is_keccak_of_0x80"] = bytes.Equal(trie.VerifEmptyRoot().Bytes(), sha3.Keccak256([]byte{0x80}))
